@@ -315,8 +315,11 @@ def scen_swap(rng):
     sub = '%s/%s' % (d, rng.choice(NAMES))
     inner = sub + '/' + rng.choice(NAMES)
     foreign = rng.random() < 0.3
+    # ... and outputs further down, in sub-directories the build made as well (making room has to descend)
+    deeper = [_bf('%s/%s/%s' % (sub, m, rng.choice(['k', 'j/k'])), 1, catch=False) for m in rng.sample(['m', 'ab', 'zz'], rng.choice([0, 1, 1, 2]))
+              if '%s/%s' % (sub, m) != inner]
     funcs = [
-        _fn('f0', [['if', ['arg', _e(0)], [_bf(inner, 1, catch=False, cmp_=rng.choice('MH'))], [_bf(sub, 1, arg=1, catch=rng.random() < 0.5)]]]
+        _fn('f0', [['if', ['arg', _e(0)], [_bf(inner, 1, catch=False, cmp_=rng.choice('MH'))] + deeper, [_bf(sub, 1, arg=1, catch=rng.random() < 0.5)]]]
             + _probe(rng, [d, sub, inner, ''], 3)),
         _fn('f1', _probe(rng, [d, sub], 1) + [['w', None]]),
     ]
@@ -956,7 +959,59 @@ def scen_reuse_inside_failing(rng):
     return {'tree': [], 'funcs': funcs, 'steps': steps}
 
 
-SCENARIOS = [scen_reuse_inside_failing, scen_failed_target_becomes_dir, scen_funcname, scen_nested_failure, scen_swap, scen_stale_dir, scen_dups, scen_versions, scen_reads, scen_identity, scen_foreign_swap, scen_sibling_failure, scen_todir, scen_selfread, scen_file_becomes_parent, scen_olddir_becomes_target, scen_prefix_siblings, scen_overlay_order, scen_nested_reuse, scen_double_failure]
+def scen_fail_then_succeed(rng):
+    """a build_file that raised (caught) in a committed build succeeds in the next build - which then fails, or commits
+    and is cleaned: the old cache has a record for the path, but no output; what the second build wrote there is new"""
+    g = rng.choice(NAMES)
+    p = rng.choice(['%s/p' % g, '%s/q/p' % g, 'p'])
+    extra = '%s/other' % g
+    funcs = [_fn('f0', [['if', ['arg', _e(0)], [_bf(p, 1, arg=0, catch=True)], [_bf(p, 1, arg=1, catch=True)]]]
+                 + ([_bf(extra, 2, catch=True)] if rng.random() < 0.5 else []) + _probe(rng, [p, g, ''], 2)),
+             _fn('f1', [['if', ['arg', _e(0)], [['w', None], ['raise', 3]] if rng.random() < 0.5 else [['raise', 3]], []], ['w', None]]),
+             _fn('f2', [['w', None]])]
+    funcs.append(_fn('rootfail', funcs[0]['stmts'] + [['raise', 99]]))
+    tail = rng.choice(['fail', 'fail', 'fail_then_build', 'build_clean'])
+    steps = [_build(arg=0)]
+    if tail == 'fail':
+        steps += [_build(arg=1, root=3), _build(arg=0)]
+    elif tail == 'fail_then_build':
+        steps += [_build(arg=1, root=3), _build(arg=1), ['clean', 'n']]
+    else:
+        steps += [_build(arg=1), ['clean', 'n'], _build(arg=0)]
+    return {'tree': [[g, 'dir']] if rng.random() < 0.3 else [], 'funcs': funcs, 'steps': steps}
+
+
+def scen_sibling_outputs(rng):
+    """one cached subbuild (or build_file) with several outputs in the same new directory and below it; one of them -
+    not necessarily the first - is tampered with between builds (content with the same size and mtime, or a new mtime,
+    or deleted): every recorded output is compared, whatever else the record already vouched for in that directory"""
+    d = rng.choice(NAMES)
+    cmp_ = rng.choice('HHM')
+    outs = ['%s/a' % d, '%s/b' % d, '%s/sub/c' % d, '%s/sub/e' % d][:rng.randint(2, 4)]
+    inner = [_bf(o, 2, catch=False, cmp_=cmp_) for o in outs]
+    if rng.random() < 0.3:
+        inner.append(_q('read', outs[0], cmp_))
+    funcs = [_fn('f0', [_sb(1, catch=True)] + _probe(rng, outs + [d], 2)),
+             _fn('f1', inner),
+             _fn('f2', [['w', None, 4242 if rng.random() < 0.5 else None]])]
+    funcs.append(_fn('rootfail', funcs[0]['stmts'] + [['raise', 99]]))
+    victim = rng.choice(outs[1:] + outs)
+    how = rng.choice(['samemeta', 'samemeta', 'touch', 'write', 'delete'])
+    if how == 'samemeta':
+        mut = ['mut', 'samemeta', victim, None, None]
+    elif how == 'touch':
+        mut = ['mut', 'touch', victim, None, 7300]
+    elif how == 'write':
+        mut = ['mut', 'write', victim, 'tampered', 7400]
+    else:
+        mut = ['mut', 'delete', victim, None, None]
+    c = {'tree': [], 'funcs': funcs, 'steps': [_build(), mut, _build(), _build()]}
+    if cmp_ == 'M':
+        c['no_spec'] = True
+    return c
+
+
+SCENARIOS = [scen_sibling_outputs, scen_fail_then_succeed, scen_reuse_inside_failing, scen_failed_target_becomes_dir, scen_funcname, scen_nested_failure, scen_swap, scen_stale_dir, scen_dups, scen_versions, scen_reads, scen_identity, scen_foreign_swap, scen_sibling_failure, scen_todir, scen_selfread, scen_file_becomes_parent, scen_olddir_becomes_target, scen_prefix_siblings, scen_overlay_order, scen_nested_reuse, scen_double_failure]
 
 
 def gen_scenario_cases(seed, per_family, dirsize=4096, families=SCENARIOS):
